@@ -1154,3 +1154,122 @@ def canonicalise_required_kwargs(tree: ast.AST, sigs: Dict[str, List[Tuple[List[
             c.keywords.remove(kw)
             n_conv += 1
     return n_conv
+
+
+# --------------------------------------------------------------------------
+# attribute copies:  x = b.f.g  (x bound once, b not rebound while x is live)  ->  uses of x become b.f.g
+# --------------------------------------------------------------------------
+
+
+def _attr_chain_root(e: ast.AST) -> Optional[str]:
+    while isinstance(e, ast.Attribute):
+        e = e.value
+    return e.id if isinstance(e, ast.Name) else None
+
+
+def propagate_attr_copies(tree: ast.Module) -> int:
+    """`old_entry = change.old ... old_entry.meta`  ->  `change.old.meta` (a sub-expression hoisted into a local is put
+    back).  Only for locals bound exactly once to a pure attribute chain, all of whose reads follow the binding inside
+    the same innermost loop body, and only when neither the root variable nor any attribute on the chain is assigned
+    anywhere else in the function."""
+    total = 0
+    for fn in ast.walk(tree):
+        if not isinstance(fn, (ast.FunctionDef, ast.AsyncFunctionDef)):
+            continue
+        for _ in range(12):
+            loads, stores, banned = _name_counts(fn)
+            order = _ordered_names(fn)
+            pos = {id(n): i for i, n in enumerate(order)}
+            attr_stores = {norm_attr(x) for x in ast.walk(fn) if isinstance(x, ast.Attribute) and not isinstance(x.ctx, ast.Load)}
+            parent_loop: Dict[int, Optional[ast.AST]] = {}
+
+            def mark(node, loop):
+                for ch in ast.iter_child_nodes(node):
+                    if isinstance(ch, (ast.FunctionDef, ast.AsyncFunctionDef, ast.Lambda, ast.ClassDef)):
+                        continue
+                    parent_loop[id(ch)] = loop
+                    mark(ch, ch if isinstance(ch, (ast.For, ast.While)) else loop)
+
+            mark(fn, None)
+            found = None
+            lists = [fn.body]
+            for x in _walk_own(fn):
+                for fld in ("body", "orelse", "finalbody"):
+                    sub = getattr(x, fld, None)
+                    if isinstance(sub, list) and sub and isinstance(sub[0], ast.stmt) and not isinstance(x, (ast.FunctionDef, ast.AsyncFunctionDef, ast.ClassDef)):
+                        lists.append(sub)
+                if isinstance(x, ast.Try):
+                    lists += [h.body for h in x.handlers]
+            for lst in lists:
+                for st in lst:
+                    if not (isinstance(st, ast.Assign) and len(st.targets) == 1 and isinstance(st.targets[0], ast.Name) and isinstance(st.value, ast.Attribute)):
+                        continue
+                    x, chain = st.targets[0], st.value
+                    root = _attr_chain_root(chain)
+                    if root is None or root == x.id or x.id in banned or stores.get(x.id, 0) != 1 or root in ("self", "cls") and False:
+                        continue
+                    # the root is a parameter / a single binding (loop target counted as one store)
+                    if stores.get(root, 0) > 1:
+                        continue
+                    if root in banned and not any(isinstance(a, ast.arg) and a.arg == root for a in ast.walk(fn.args)):
+                        continue
+                    # no attribute on the chain (or below it) is assigned in this function
+                    ctxt = norm_attr(chain)
+                    if any(a == ctxt or a.startswith(ctxt + ".") or ctxt.startswith(a + ".") for a in attr_stores):
+                        continue
+                    uses = [n for n in order if n.id == x.id and isinstance(n.ctx, ast.Load)]
+                    if not uses or any(pos[id(u)] < pos[id(x)] for u in uses):
+                        continue
+                    loop = parent_loop.get(id(st))
+                    if loop is None:
+                        # function-level classifications (`is_symlink = meta.is_link`) are what rules anchor on: kept
+                        continue
+                    if any(not _inside(parent_loop, u, loop) for u in uses):
+                        continue
+                    # a method called on the root object (or on something along the chain) may change the attribute
+                    pure = ("get", "items", "keys", "values", "startswith", "endswith", "join", "split", "copy", "isdir", "to_dict", "as_dict")
+                    if any(isinstance(c, ast.Call) and isinstance(c.func, ast.Attribute) and _attr_chain_root(c.func) == root and c.func.attr not in pure
+                           and (norm_attr(c.func.value) == root or ctxt.startswith(norm_attr(c.func.value) + ".") or norm_attr(c.func.value) == ctxt) for c in ast.walk(fn)):
+                        continue
+                    found = (lst, st, x.id, chain)
+                    break
+                if found:
+                    break
+            if not found:
+                break
+            lst, st, name, chain = found
+            lst.remove(st)
+            if not lst:
+                lst.append(ast.Pass())
+
+            class R(ast.NodeTransformer):
+                def visit_Name(self, n):
+                    if n.id == name and isinstance(n.ctx, ast.Load):
+                        return ast.copy_location(copy.deepcopy(chain), n)
+                    return n
+
+            R().visit(fn)
+            ast.fix_missing_locations(fn)
+            total += 1
+    return total
+
+
+def norm_attr(e: ast.AST) -> str:
+    try:
+        return ast.unparse(e)
+    except Exception:  # noqa: BLE001
+        return ""
+
+
+def _inside(parent_loop, node, loop) -> bool:
+    """node lies (transitively) inside `loop` (None = anywhere in the function)"""
+    if loop is None:
+        return True
+    cur = parent_loop.get(id(node))
+    seen = 0
+    while cur is not None and seen < 50:
+        if cur is loop:
+            return True
+        cur = parent_loop.get(id(cur))
+        seen += 1
+    return False
